@@ -213,7 +213,9 @@ class Prob:
         # through the constructor; the resulting lists must be exactly (shr, idx, off)
         nshr, nvars = len(self.shr), len(self.idx)
         t = 0
-        for cand in (2, 1):
+        if nshr >= 2 and nvars >= 2 and (nshr - 1) not in self.idx and all(i < nshr - 1 for i in self.idx):
+            t = 1  # a trailing placeholder domain no variable uses: this is what add_variable(dom, dom_index=k, dom_offset=o) leaves behind
+        for cand in ((2, 1) if t == 0 else ()):
             a, b = nshr - cand, nvars - cand
             if a >= 1 and b >= 1 and all(i < a for i in self.idx[:b]) and (nshr + nvars + len(self.props)) % 2 == 0:
                 t = cand
